@@ -164,4 +164,21 @@ func almostClosedArcs(tols []float64) fw.Family {
 	}, tols))
 }
 
+// rotatedCircles: arcs of circles stored with a rotation that is not zero - what Path.Transform
+// leaves behind when it maps an ellipse onto a circle (the radii come out equal, the rotation of
+// the eigenvectors stays); the builder itself stores 0 for circles.
+func rotatedCircles(tols []float64) fw.Family {
+	rs := []float64{1, 2.5}
+	rotsC := []float64{30, 90, 135}
+	ends := []oracle.Pt{{X: 1, Y: 1}, {X: 2, Y: 0}, {X: -1, Y: 2}, {X: 0.5, Y: -1.5}}
+	rad := []int{len(rs), len(rotsC), 4, len(ends)}
+	return labelled("arc-circle-stored-rotated", pathFamily("arcs of circles stored with the rotation 30, 90 or 135 degrees (as Transform leaves them): 2 radii x 4 flag pairs x 4 end points", oracle.Prod(rad...), func(i int64) ([]oracle.Subpath, bool) {
+		d := oracle.Digits(i, rad...)
+		r := rs[d[0]]
+		s := oracle.MkArc(oracle.Pt{}, r, r, 0, d[2]&1 != 0, d[2]&2 != 0, ends[d[3]])
+		s.Phi = rotsC[d[1]] * math.Pi / 180 // (MkArc stores 0 for circles, as the builder does)
+		return curvefam.One(s), true
+	}, tols))
+}
+
 var _ = fmt.Sprint
